@@ -1204,6 +1204,8 @@ impl Checker<'_> {
                     _ => unreachable!(),
                 };
                 self.v("C12", "restart-from-pruned-fails", what.into(), format!("restart from the original journal works, from the pruned one: {why}"), case.clone());
+                // a history with a prune in it is a history: the restart at its end must work (C10)
+                self.v("C10", "restart-fails", format!("after-{what}"), format!("journal pruned by the real journal thread (and continued): {why}"), case.clone());
             }
             (_, _) => {
                 // the original does not restore either: judged by C10
